@@ -3263,8 +3263,55 @@ func ruleReadBounded(c *Ctx) {
 	p := c.P
 	if c.Prop == "C08" {
 		const R = "R08-eof"
-		fn := c.need(R, "parse", "(*Scanner).readNext")
+		fn := p.Fn("parse", "(*Scanner).readNext")
 		if fn == nil {
+			// readNext inlined into its callers: the same statement about every read of a byte in package parse —
+			// the byte (first result of ReadByte) is used only where the error (second result) is known to be nil
+			n, okc := 0, true
+			var where *ssa.Function
+			for _, f := range p.srcFuncs {
+				if f.Pkg != p.SPkg("parse") {
+					continue
+				}
+				g := p.G(f)
+				allInstrs(f, func(in ssa.Instruction) {
+					ex, ok := in.(*ssa.Extract)
+					if !ok || ex.Index != 0 || in.Parent() != f {
+						return
+					}
+					cl, ok := ex.Tuple.(*ssa.Call)
+					if !ok || cl.Call.Value == nil || !strings.HasSuffix(cl.Call.Value.String(), "ReadByte") && (cl.Call.Method == nil || cl.Call.Method.Name() != "ReadByte") {
+						return
+					}
+					if ex.Referrers() == nil {
+						return
+					}
+					for _, use := range *ex.Referrers() {
+						n++
+						where = f
+						errNil := false
+						for _, cd := range g.expandAnd(g.CondsAtInstr(use)) {
+							b, ok := cd.V.(*ssa.BinOp)
+							if !ok {
+								continue
+							}
+							isNil := func(v ssa.Value) bool { k, ok := v.(*ssa.Const); return ok && k.IsNil() }
+							if (isNil(b.X) || isNil(b.Y)) && eqHolds(b, cd) {
+								errNil = true
+							}
+						}
+						if !errNil {
+							okc = false
+						}
+					}
+				})
+			}
+			c.Sites++
+			pos := "-"
+			if where != nil {
+				pos = p.pos(where.Pos())
+			}
+			c.check(n > 0 && okc, R, "readNext:any-read-error-ends-the-input", pos, "a byte is used only where the read returned a nil error", "the scanner uses a byte although the reader reported an error (only io.EOF is treated as the end): a reader that keeps failing looks like an endless run of NUL bytes and Load never returns from inside a string literal or long comment")
 			return
 		}
 		g := p.G(fn)
